@@ -114,6 +114,7 @@ class ChildWorld:
         self.systems = {}
         self.objs = {}
         self.kept = {}
+        self.us_objects = {}
         self.clock = VClock()
         self.global_size = 0   # state size of the last set-up made in this process (what the native singleton holds)
 
@@ -165,7 +166,11 @@ class ChildWorld:
             kw = {}
             for k, v in sd["script"].items():
                 if k == "units_system":
-                    kw[k] = st.UnitsSystem(**v)
+                    # one UnitsSystem object per distinct value and process: the caller keeps and re-uses its objects
+                    key = (v.get("space"), v.get("time"), v.get("quantity"))
+                    if key not in self.us_objects:
+                        self.us_objects[key] = st.UnitsSystem(**v)
+                    kw[k] = self.us_objects[key]
                 elif k == "t_sample" and isinstance(v, list):
                     kw[k] = [_to_unit_objects(x) for x in v]
                 else:
@@ -618,6 +623,27 @@ class ChildWorld:
                 r.kf = _sc(r.kf, float(op[3]))
             else:
                 r.kr = _sc(r.kr, float(op[3]))
+        elif name == "chem_api":
+            # ["chem_api", action, species, cell, value]: the chemostat map of the caller's live system changed through the
+            # methods of RDSystem (after the kinetics functions were used on it)
+            system = self.get_system(sidx)
+            act = op[1]
+            if act == "reset":
+                system.reset_chemostats()
+            elif act == "default":
+                system.set_default_chemostats()
+            elif act == "set":
+                system.set_chemostat(int(op[2]), int(op[3]), op[4])
+            elif act == "copy_set":
+                other = system.copy()
+                other.set_chemostat(int(op[2]), int(op[3]), op[4])
+                self.kept["chem_copy"] = other
+            else:
+                raise ValueError(act)
+            ev["chem"] = [int(c) for c in system.chemostats]
+        elif name == "drop_system":
+            self.scripts.pop(sidx, None)
+            self.systems.pop(sidx, None)
         elif name == "apply_reaction":
             # ["apply_reaction", reaction index, position, n]: hand-applied reaction on the RDSystem; becomes the
             # initial state of the next set-up of this script
